@@ -23,6 +23,8 @@ macro_rules! is_str_upto {
 is_str_upto!(is_str_len_0_to_4, 4, 10);
 #[cfg(feature = "thorough")]
 is_str_upto!(is_str_len_0_to_6, 6, 14);
+#[cfg(feature = "deep")]
+is_str_upto!(is_str_len_0_to_8, 8, 18);
 
 /// Exact lengths with a multi-byte lead forced at a given position: cheap, pin-points failures.
 macro_rules! is_str_exact {
